@@ -98,7 +98,7 @@ def run(v, tier, replay):
     rc, so, se = lib.run([binp, sf, tr, str(lib.seed())], timeout=3000)
     if rc != 0:
         if "panic" in se:
-            where = [l.strip() for l in se.split("\n") if "/repo/" in l][:3]
+            where = [l.strip() for l in se.split("\n") if lib.REPO_MARK in l][:3]
             v.violation("tube pair driver crashed: %s | %s" % ([l for l in se.split("\n") if l.startswith("panic")][:1], where[:1]), se[-1500:], dict(stderr=se[-3000:]))
             return
         raise lib.Inconclusive("tubepair failed: " + (so + se)[-3000:])
